@@ -20,6 +20,8 @@ def _screen_contracts():
 PROPS = {
     'C19': {
         'contracts': _screen_contracts(),
+        'bounds': {'*': {'alphabet': 'xy', 'maxlen': 1, 'ints': [0, 1, 2, 3, 4],
+                         'per_name': {'rows': [1, 2, 3], 'cols': [1, 2, 3], 'nextid': [0], 'cur_saved_r': [1, 2], 'cur_saved_c': [1, 2]}}},
         'assumptions': [
             'list indexing, slicing and slice assignment on the grid follow CPython semantics (rows are shared objects; copy.deepcopy yields fresh rows)',
             'characters are text (str); the bytes-input path (_decode) is covered only as far as the representation invariant',
@@ -42,3 +44,9 @@ PROPS = {
         ],
     },
 }
+
+LEVEL_TEXT = {
+    '*': 'Every clause of the sidecar contracts of the functions this property depends on is a proof obligation generated from the current source and discharged by an SMT solver for all inputs, all iterations (loop invariants) and all call histories (object invariant + modular induction); callers are checked against callee contracts, not bodies. Relative to the assumed contracts of library calls listed in the evidence.',
+}
+
+NOT_APPLICABLE = {}
